@@ -96,6 +96,12 @@ func verifyFunctionAs(P *Program, S *Specs, ct *Contract, fnOverride *ssa.Functi
 		_ = i
 		fr.freeVars = append(fr.freeVars, v)
 		fr.typed(v)
+		// what a captured variable holds when the closure starts existed before it started
+		if pt, ok := fv.Type().Underlying().(*types.Pointer); ok {
+			lv := fr.loadPtr(entry.heap, v, pt.Elem())
+			lv.Typ = pt.Elem()
+			fr.typed(lv)
+		}
 	}
 	fr.entry = entry
 	if implType != nil {
